@@ -34,7 +34,7 @@ func init() {
 		},
 		Run: runC15,
 		Required: []string{"roundtrip.plain", "roundtrip.yaml", "roundtrip.yaml_modular", "roundtrip.organism_binary", "roundtrip.organism_binary_batched", "roundtrip.organism_gob",
-			"roundtrip.population", "roundtrip.solver_model", "roundtrip.solver_model_modular", "roundtrip.experiment", "weights.extreme"},
+			"roundtrip.population", "roundtrip.solver_model", "roundtrip.solver_model_modular", "roundtrip.experiment", "roundtrip.large_genome", "weights.extreme"},
 	})
 }
 
@@ -180,6 +180,9 @@ func runC15(c *Ctx, idx int) {
 	if !c15Population(c, r, fuzzed, snaps) || !c15Solver(c, r) || !c15Experiment(c, r, pool) {
 		return
 	}
+	if idx%8 == 0 && !c15LargeGenome(c, r) {
+		return
+	}
 }
 
 func c15Genome(c *Ctx, g *genetics.Genome, s *SnapGenome, enc genetics.GenomeEncoding, name string) bool {
@@ -323,6 +326,79 @@ func c15OrganismBatch(c *Ctx, r *rand.Rand, genomes []*genetics.Genome, snaps []
 		}
 		if back.Genotype == nil || diffGenomes(snaps[i], snapGenome(back.Genotype)) != "" || fbits(back.Fitness) != fbits(it.fit) || back.Generation != it.gen {
 			c.Violate("organism-differs/binary-batch", detail, "organism #%d of a batch marshalled before it was restored does not restore itself", i)
+			return false
+		}
+	}
+	return true
+}
+
+// c15LargeGenome round trips a long-evolved genome: more than 500 nodes (a chain of node splits), runs of neighbouring
+// disabled genes as add-node leaves them, through the plain encoding and a written population
+func c15LargeGenome(c *Ctx, r *rand.Rand) bool {
+	s := &SnapGenome{Id: 1}
+	s.Traits = []SnapTrait{{Id: 1, Params: make([]uint64, 8)}}
+	nHidden := 500 + r.Intn(40)
+	s.Nodes = append(s.Nodes, SnapNode{Id: 1, Neuron: byte(network.InputNeuron), Act: byte(neatmath.NullActivation), TraitId: 1},
+		SnapNode{Id: 2, Neuron: byte(network.BiasNeuron), Act: byte(neatmath.NullActivation), TraitId: 1},
+		SnapNode{Id: 3, Neuron: byte(network.OutputNeuron), Act: byte(neatmath.SigmoidSteepenedActivation), TraitId: 1})
+	innov := int64(0)
+	gene := func(in, out int, en bool) {
+		innov++
+		w := fbits(r.NormFloat64())
+		s.Genes = append(s.Genes, SnapGene{In: in, Out: out, Innov: innov, W: w, Mut: w, En: en, TraitId: 1})
+	}
+	gene(2, 3, true)
+	prev := 1
+	for i := 0; i < nHidden; i++ {
+		id := 4 + i
+		s.Nodes = append(s.Nodes, SnapNode{Id: id, Neuron: byte(network.HiddenNeuron), Act: byte(neatmath.SigmoidSteepenedActivation), TraitId: 1})
+		// the split link prev -> 3 stays behind disabled, like after an add-node mutation; now and then two in a row
+		gene(prev, 3, false)
+		if r.Intn(4) == 0 {
+			gene(2, id, false)
+		}
+		gene(prev, id, true)
+		prev = id
+	}
+	gene(prev, 3, true)
+	g := buildFromSnap(s)
+	if kind, msg := wf(g, nil, true); kind != "" {
+		panic("harness: the large genome is not well-formed: " + msg)
+	}
+	c.Count("roundtrip.large_genome", 1)
+	if !c15Genome(c, g, s, genetics.PlainGenomeEncoding, "plain") {
+		return false
+	}
+	o := baseOpts()
+	o.PopSize = 3
+	pop, err := genetics.NewPopulation(buildFromSnap(s), o)
+	if err != nil {
+		// the debugging verifier of the constructor is none of C15's business
+		c.Count("roundtrip.large_genome_population_not_spawned", 1)
+		return true
+	}
+	snaps := make([]*SnapGenome, len(pop.Organisms))
+	for i, org := range pop.Organisms {
+		snaps[i] = snapGenome(org.Genotype)
+	}
+	var buf bytes.Buffer
+	if err = pop.Write(&buf); err != nil {
+		c.Violate("population-error", nil, "Population.Write failed on a population of %d-node genomes: %v", len(s.Nodes), err)
+		return false
+	}
+	back, err := genetics.ReadPopulation(&buf, o)
+	c.Eval(1)
+	if err != nil {
+		c.Violate("population-error", map[string]interface{}{"nodes": len(s.Nodes), "genes": len(s.Genes)}, "ReadPopulation failed on what Population.Write wrote for genomes of %d nodes: %v", len(s.Nodes), err)
+		return false
+	}
+	if len(back.Organisms) != len(snaps) {
+		c.Violate("population-differs", nil, "population of %d large genomes read back with %d organisms", len(snaps), len(back.Organisms))
+		return false
+	}
+	for i := range snaps {
+		if d := diffGenomes(snaps[i], snapGenome(back.Organisms[i].Genotype)); d != "" {
+			c.Violate("population-differs", nil, "large genome #%d of the population read back differs: %s", i, d)
 			return false
 		}
 	}
